@@ -352,6 +352,11 @@ def reaches_duplicate(src, ps):
 
 
 def admit_cause(fail, f, pos, T, rec_active, o, ps=None, src="", pkg_root="simpkg_"):
+    if f["body"] == "agen":
+        # listed finding (same defect as C02): the yields of an async generator are recorded as CPython's internal wrapper class
+        # (such rows cannot be decoded and are skipped at stub time, so the annotations reflect only part of the calls) and its
+        # await suspensions as yields (Iterator[...] return annotations)
+        return "async_generator_yield_wrapped"
     if ps is not None and ps.dup_typed_dicts and reaches_duplicate(src, ps):
         return "typeddict_class_name_collision"
     if f["body"] == "coro" and pos == "return" and o.get("suspended") and typing.get_origin(T) in (collections.abc.Iterator, collections.abc.Generator):
